@@ -174,6 +174,9 @@ mircheck("C20", "Metrics count what happened", SYMEX,
          "see scenario", "wall-clock time (virtual clock); concurrent readers on real threads", "the real MetricsCollector / MessageProcessingGuard code is interpreted; Instant is the virtual clock",
          feats=("metrics",))
 
+CHECKS["C16"]["groups"][-1]["scenarios"].append(m("blocking", "the C17 scenario (blocking_tell / blocking_ask with and without timeout from a plain thread: live / slow / full mailbox / never-answering / killed actor) with each call routed through Box<dyn TellHandler> / Box<dyn AskHandler> obtained by From, clone_boxed or downgrade+upgrade", "same results, timers, deadlines and dead letters as the direct calls"))
+for _pid in ("C01", "C02", "C03", "C13"):
+    CHECKS[_pid]["groups"][-1]["scenarios"].append(m("abandoned", "callers that give up: ask_with_timeout (symbolic timeout <= 4 ns, one symbolic clock advance) expiring after the mailbox accepted the message; ask / tell futures dropped at EVERY possible moment (cancellation is a scheduler choice); later traffic queued behind; capacity 1-3, slow handler", "an abandoned request is still handled exactly once and in its place; a withdrawn send is never handled; nothing hangs; no dead letter without a returned error"))
 for _pid in ("C01", "C02", "C06", "C08", "C09"):
     CHECKS[_pid]["groups"][-1]["scenarios"].append(m("burst", "one sender, 12 (thorough 20) back-to-back tells + a final ask into a mailbox that holds them all; on_run periodic or one-shot; optionally a kill / stop() from a second task", "threshold-dependent behaviour (batching, burst limits) under the same monitors"))
 CHECKS["C12"]["groups"].append({"engine": "mir", "features": ["deadlock-detection"], "attribute_all": True, "scenarios": [
@@ -204,14 +207,14 @@ CHECKS["C03"]["outside"] = "reply types other than the scripted u8 and JoinHandl
 CHECKS["C19"] = {
     "title": "Macro-generated code means what the hand-written code would", "level": "model_checking",
     "technique": SYMEX + " applied to the code GENERATED by the real macros for a corpus of programs (enumerated from the handler-signature grammar), with symbolic actor state and message payloads",
-    "functions": ["the expansion of #[derive(Actor)] and #[message_handlers] (rsactor-derive, executed by rustc when the overlay is compiled) for 8 corpus programs: structs, tuple struct, enum, generic struct x return types {u32, (), Result<..>, std::result::Result<..>, type alias of Result, Option<..>} x {#[handler], #[handler(result)], #[handler(no_log)]} x a co-existing non-handler method", "<T as PayloadHandler<A>>::handle_message", "ActorRef::{tell,ask}", "run_actor_lifecycle"],
-    "bounds": "8 generated programs (every valid return-type x option combination occurs), 2 handlers each, one tell and one ask per handler, actor state (32 bit) and the four message payloads (8 bit) symbolic; runtime half: 2 clients, 4 messages, all schedules",
+    "functions": ["the expansion of #[derive(Actor)] and #[message_handlers] (rsactor-derive, executed by rustc when the overlay is compiled) for 9 corpus programs: structs, tuple struct, enum, generic struct x return types {u32, (), Result<..>, std::result::Result<..>, path::Result<T> (one type argument, the shape of anyhow::Result<T>), type alias of Result, Option<..>} x {#[handler], #[handler(result)], #[handler(no_log)]} x a co-existing non-handler method", "<T as PayloadHandler<A>>::handle_message", "ActorRef::{tell,ask}", "run_actor_lifecycle"],
+    "bounds": "9 generated programs (every valid return-type x option combination occurs), 2 handlers each, one tell and one ask per handler, actor state (32 bit) and the four message payloads (8 bit) symbolic; runtime half: 2 clients, 4 messages, all schedules",
     "outside": "the macro algorithm itself runs at compile time on syn trees and is not executed symbolically: programs are ENUMERATED from the grammar, only their inputs are symbolic; compile-error rows of the table (result + no_log, result on `()`) are not checked; Reply-type equality is checked through the shape of replies, not at the type level",
     "assumptions": MIRENV + ["tracing::error!/warn! are model macros that report their level to an observable hook without evaluating their arguments"],
     "trusted_base": MIRTRUST + ["rustc's macro expansion of the corpus"],
     "explanation": "for every corpus program and all values: ask replies and the final actor state equal the arithmetic of the user methods stated independently by the generator (handle == the method), reply shapes match the declared return types, derive(Actor)::on_start returns its argument unchanged (enum variant, extra fields), and the number of error events emitted by generated on_tell_result code equals the documented decision table; runtime half: on_tell_result exactly once after each tell with the handler's value, never after an ask",
     "groups": [{"engine": "mir", "features": [], "scenarios": [m("macro_runtime", "scripted actor, 2 clients, tell/ask mix, all schedules", "on_tell_result once per tell with the handler's value, never for asks, directly after the handler")]},
-               {"engine": "mir", "features": ["verif-corpus"], "scenarios": [m("macro_corpus", "8 programs x symbolic state and payloads", "see explanation", xval=False)]}],
+               {"engine": "mir", "features": ["verif-corpus"], "scenarios": [m("macro_corpus", "9 programs x symbolic state and payloads", "see explanation", xval=False)]}],
 }
 
 # ---- Kani first-poll harnesses (real Rust semantics and types; every future polled once) ----
